@@ -198,6 +198,25 @@ def go_module(scr, name, gen, race=False, tags="verif", pkg_subdir=None, extra_s
     return out
 
 
+def vt_bindings(scr, moddir):
+    """Generate the VT bindings with /repo's CURRENT v2 generator into <moddir>/gen (package root verifharness/gen)
+    and the registry / enum table the codec harnesses need.  Called through go_module(extra_src=...)."""
+    gen = go_module(scr, "gen", "v2")
+    mf = os.path.join(scr.path, "vt-manifest.json")
+    with open(mf, "w") as f:
+        subprocess.run([sys.executable, os.path.join(VERIF, "schemas", "vt.py"), "manifest", "verifharness/gen"], stdout=f, check=True)
+    p = subprocess.run([gen, mf, os.path.join(moddir, "gen")], stdout=subprocess.PIPE, stderr=subprocess.STDOUT, text=True)
+    if p.returncode != 0:
+        raise Broken("the v2 generator failed on the VT manifest:\n" + p.stdout[-3000:])
+    with open(os.path.join(moddir, "registry.go"), "w") as f:
+        subprocess.run([sys.executable, os.path.join(VERIF, "schemas", "vt.py"), "registry", "verifharness/gen"], stdout=f, check=True)
+    with open(os.path.join(moddir, "enums.json"), "w") as f:
+        subprocess.run([sys.executable, os.path.join(VERIF, "schemas", "vt.py"), "enums"], stdout=f, check=True)
+    # the generated all_imports_test.gr.go is a `package main` file in the output root; it is not part of the bindings
+    os.chmod(os.path.join(moddir, "gen", "all_imports_test.gr.go"), 0o644)
+    os.remove(os.path.join(moddir, "gen", "all_imports_test.gr.go"))
+
+
 def run_bin(binary, args, timeout=1800, stdin=None, env=None, cwd=None):
     e = dict(GOENV)
     if env:
@@ -237,11 +256,20 @@ class Verdict:
 
     def finish(self):
         """Returns (exit_code, n_unlisted, known_lines)."""
-        open_keys = {k["key"]: k for k in self.known if k.get("status") == "open"}
+        import fnmatch
+        open_entries = [k for k in self.known if k.get("status") == "open"]
         unlisted = []
+        reported = set()
         for v in self.violations:
-            if v["key"] in open_keys:
-                print("KNOWN-FINDING: property=%s %s [%s] (x%d)" % (self.prop, open_keys[v["key"]]["what"], v["key"], v["count"]))
+            hit = None
+            for k in open_entries:
+                if v["key"] == k["key"] or fnmatch.fnmatchcase(v["key"], k["key"]):
+                    hit = k
+                    break
+            if hit is not None:
+                if hit["key"] not in reported:   # one line per listed finding
+                    reported.add(hit["key"])
+                    print("KNOWN-FINDING: property=%s %s [%s]" % (self.prop, hit["what"], hit["key"]))
             else:
                 unlisted.append(v)
         os.makedirs(os.path.join(VERIF, "replays"), exist_ok=True)
